@@ -33,7 +33,9 @@ MANIFEST = dict(
           'automaton satisfies the hypotheses wf/trim of the C03 theorems) and C02_minimised (the minimised main automaton with minimised '
           'within-word automata accepts exactly what the tree denotes); fuel adequacy of check_ambiguities and of the subset '
           'construction and C02_total (from every tree the checker returns the whole pipeline regex -> raw -> minimised exists, no panic, '
-          'no fuel exhaustion). The models are tied to src/regex.rs and '
+          'no fuel exhaustion); C02_driver and C02_compile_valid_total (end to end for Model/Driver.compile_valid, which compiles, '
+          'minimises and interns the within-word automata itself: its result accepts exactly what the validated tree denotes, and it '
+          'is Ok or one of the UnboundedMatchable / ambiguity diagnostics, never a panic or fuel exhaustion). The models are tied to src/regex.rs and '
           'src/dfa.rs on every run: exact equality of the REGEX stage (positions, inputs with spans, node arena, first, follow, '
           'intern pool, UnboundedMatchable spans) and of the raw automata (isomorphism, then exact equality under replay of the pop '
           'order that Rust\'s row order reveals), each stage fed with Rust\'s previous-stage output. Independently of the models, the '
